@@ -305,6 +305,26 @@ Family const &tree_family()
         if (!child.parent().has_value() || &child.parent().get_unsafe().get() != &t)
           fail(cx.key("parent"), cx.where() + "a child does not point at the assigned-to node");
     }));
+    // copy assignment from a const reference to one of the tree's own sub-trees (shape 0: the middle
+    // child 2[3]; 1: that child's child 3): the source is an argument passed by const reference and
+    // is owned by the target, so it has to be copied before the old children are released - a copy
+    // taken afterwards reads destroyed elements ("copies-moved-from" / ASan). The copies themselves
+    // are what copy assignment is documented to do, so the origins are not registered as travelling
+    // by move; the post-state must be exactly the copied sub-tree with correct parent links.
+    r.push_back(entry0("tree::operator=(const own sub-tree)", 2, [](Ctx &cx, int shape) {
+      tree_t t = make_tree(2);
+      cx.klass_override("const-lvalue-descendant");
+      cx.elements += 5;
+      tree_t const &mid = *std::next(t.begin());
+      tree_t const &src = shape == 0 ? mid : mid.front().get_unsafe().get();
+      cx.begin();
+      t = src;
+      cx.end();
+      cx.expect_state(t, shape == 0 ? std::vector<int>{2, 3} : std::vector<int>{3}, "tree");
+      for (tree_t const &child : t)
+        if (!child.parent().has_value() || &child.parent().get_unsafe().get() != &t)
+          fail(cx.key("parent"), cx.where() + "a child does not point at the assigned-to node");
+    }));
     // removal: pop_back / pop_front / release
     r.push_back(entry0("tree::pop_back/pop_front/release", 6, [](Ctx &cx, int shape) {
       int const op = shape % 3;
